@@ -12,6 +12,18 @@ theorem reset_spec (c : Cfg) (chk : Bool) (r : RetryState) (n : Int) :
   simp only [reset, retryOps, heldUnits, decrease]
   cases hh : r.held <;> by_cases hm : c.maxRetries = 0 <;> simp [hh, hm] <;> omega
 
+/-- the admission rule of one retry decision on the small state: with `a ≥ 0` slots held by OTHER requests, budget left and
+a retriable failure, the decision is "retry" iff the resource is unlimited or `a` is below the limit — whether or not
+this request still holds the slot of its previous retry: the regenerated `retry` gives that slot back (`reset`) BEFORE it
+asks `CanCreate` -/
+theorem retry_admit (c : Cfg) (r : RetryState) (n a : Int) (ha : 0 ≤ a) (hn : n = a + heldUnits c r) (hrem : r.remaining ≠ 0) :
+    ((retry (retryOps c true) (r, n)).2 = ShouldRetry ↔ (c.maxRetries = 0 ∨ a < (c.maxRetries : Int))) ∧
+    ((retry (retryOps c true) (r, n)).2 = RetryOverflow ↔ ¬ (c.maxRetries = 0 ∨ a < (c.maxRetries : Int))) := by
+  subst hn
+  simp only [retry, shouldRetry, reset, retryOps, heldUnits, decrease, increase, canCreate, id,
+    ShouldRetry, NoRetry, RetryOverflow]
+  cases hh : r.held <;> by_cases hm : c.maxRetries = 0 <;> simp [hh, hm, hrem] <;> (try split) <;> (try simp_all) <;> (try omega)
+
 theorem retry_spec (c : Cfg) (chk : Bool) (r : RetryState) (n : Int) :
     let res := retry (retryOps c chk) (r, n)
     (res.2 = ShouldRetry ∨ res.2 = NoRetry ∨ res.2 = RetryOverflow) ∧
